@@ -404,14 +404,47 @@ Definition enc_post_res (body : bytes) (k : Z) (r : post_res) : list Z :=
   | PAssert => [3%Z]
   end.
 
-(* input: max_memfile ; k ; B (len-prefixed) ; body (len-prefixed) *)
+(* block-wise reading of one upload: file.read(blk) until it returns b''.  Each
+   BytesIOProxy.read positions the shared source itself (src.seek(self._pos)), so
+   reads through several windows — and through Request.body — may be interleaved
+   freely: the blocks of one upload do not depend on what is read in between. *)
+Fixpoint proxy_blocks (fuel : nat) (body : bytes) (p : proxy) (blk : Z) : list bytes :=
+  match fuel with
+  | O => []
+  | S f =>
+    let (b, p') := proxy_read body p (Some blk) in
+    match b with
+    | [] => []
+    | _ => b :: proxy_blocks f body p' blk
+    end
+  end.
+
+Definition item_blocks (body : bytes) (blk : Z) (it : item) : list (list bytes) :=
+  match it with
+  | IFile _ _ _ w => [proxy_blocks (S (Z.to_nat (snd w - fst w))) body (proxy_open w) blk]
+  | IText _ => []
+  end.
+
+Definition dict_blocks (body : bytes) (blk : Z) (d : fdict) : list (list bytes) :=
+  flat_map (fun kv => match snd kv with
+                      | Single x => item_blocks body blk x
+                      | Multi xs => flat_map (item_blocks body blk) xs
+                      end) d.
+
+Definition enc_blocks (body : bytes) (blk : Z) (r : post_res) : list Z :=
+  match r with
+  | POk d => enc_list (enc_list enc_str) (dict_blocks body blk (d_files d))
+  | _ => []
+  end.
+
+(* input: max_memfile ; k ; blk ; B (len-prefixed) ; body (len-prefixed) *)
 Definition corr_C07 (inp : list Z) : list Z :=
   match inp with
-  | mem :: k :: r =>
+  | mem :: k :: blk :: r =>
     match dec_str r with
     | Some (B, r1) =>
       match dec_str r1 with
-      | Some (body, _) => enc_post_res body k (post B body mem)
+      | Some (body, _) => let res := post B body mem in enc_post_res body k res ++ enc_blocks body blk res
       | None => bad_input
       end
     | None => bad_input
